@@ -100,6 +100,7 @@ fn main() {
         "sched-random" => parcmd::cmd_sched_random(&a),
         "par-free" => parcmd::cmd_par_free(&a),
         "sched-one" => parcmd::cmd_sched_one(&a),
+        "seqproto" => parcmd::cmd_seqproto(&a),
         "sink" => sink::cmd_sink(&a),
         "faulty" => sink::cmd_faulty(&a),
         "fill" => fill::cmd_fill(&a),
